@@ -2,7 +2,7 @@
 # Extracts the models (coq/Extract/*X.v, needs the .vo files built) and compiles the drivers.
 set -e
 cd "$(dirname "$0")"
-for fam in mem fetch; do
+for fam in mem fetch fmt; do
   X=$(echo ${fam:0:1} | tr a-z A-Z)${fam:1}X
   src=../coq/Extract/$X.v
   if [ ! -f ${fam}_model.ml ] || [ -n "$(find ../coq -name '*.vo' -newer ${fam}_model.ml 2>/dev/null | head -1)" ] || [ $src -nt ${fam}_model.ml ]; then
